@@ -193,6 +193,39 @@ def check_reduction(tier="quick"):
     return out
 
 
+def check_timeouts():
+    """Waits with a deadline: under the cooperative shims a deadline may pass whenever the waiter is scheduled before the
+    notification (Condition.wait -> False, Lock.acquire -> False, flock(LOCK_NB) -> BlockingIOError); time.sleep is a
+    scheduling point, no real time passes."""
+    import time
+    from . import env
+    env.install()
+    env.reset_execution()
+    w = env.BaseWorker("T1")
+    seen = []
+    w.point = lambda op, pred=None: seen.append(op[1]) if pred is None or pred() else (_ for _ in ()).throw(RuntimeError("blocked"))
+    env.CUR.w = w
+    try:
+        c = env.SCond()
+        with c:
+            assert c.wait(timeout=0.5) is False
+            assert c.wait_for(lambda: False, timeout=0.5) is False
+        assert c.lock.owner is None and not c.waiters and not c.tokens
+        lk = env.SLock()
+        lk.owner = "T2"
+        assert lk.acquire(timeout=1) is False and lk.owner == "T2"
+        lk.owner = None
+        assert lk.acquire(timeout=1) is True and lk.owner == "T1"
+        lk.release()
+        t0 = time.time()
+        time.sleep(5)
+        assert time.time() - t0 < 1, "time.sleep really slept on a controlled thread"
+    finally:
+        env.CUR.w = None
+    assert {"wait-timeout", "acquire-timeout", "sleep"} <= set(seen), seen
+    return sorted(set(seen))
+
+
 def check_line_level(tier="quick"):
     """Engine L against engine T: with one pre-emption at every source line, every terminal observation must be one
     that the full interleaving search (no reduction) reaches as well - the pinned package keeps nothing in memory between
@@ -334,6 +367,7 @@ def main(tier="quick"):
     seen, found = check_escape_detector()
     print("selftest: escape detector: %d audited file-system events of two calls all came through the layer; direct use of %s reported" % (
         seen, ", ".join(found)))
+    print("selftest: deadlines and sleeps are scheduling points:", ", ".join(check_timeouts()))
     ex, nl, ns = check_shims_threading()
     print("selftest: lock/condition shims: %d interleavings, %d outcomes; real threading showed %d, all among them" % (ex, nl, ns))
     for name, a, b, t in check_reduction(tier):
